@@ -53,6 +53,18 @@ SEEDS = {
  "s4-C12d": ("C12", ["C12"], "TopLevel computed from a suffix test: schema-level definitions, a response/parameter named 'definitions'"),
  "s4-C18d": ("C18", ["C18"], "an id carried by a skipped (colliding) path of an earlier mixin and by a fresh path of a later one"),
  "s4-C19d": ("C19", ["C19"], "operation whose responses hold only an undescribed default response"),
+ "s5-C01e": ("C01", ["C01"], "'../x.json' inside an imported schema rebased to the wrong directory; silent only when a same-named document with a same-named definition exists there"),
+ "s5-C02e": ("C02", ["C02"], "case-insensitive collision where name mangling changes the case + the same remote definition met again in a later import pass (cache records the name before uniquification)"),
+ "s5-C05e": ("C05", ["C05"], "Expand + cycle through an auxiliary document whose file name equals the root's (normalizeRef matches by base name)"),
+ "s5-C06e": ("C06", ["C06", "C01"], "definitions used only from a path-level body parameter (treated as a dropped shared parameter)"),
+ "s5-C10e": ("C10", ["C10"], "RemoveUnused + an unused definition whose name is a prefix of a used one (incremental index update instead of reload)"),
+ "s5-C11e": ("C11", ["C11", "C13"], "simple-schema items nested with a $ref at two depths of the same chain (same key for every level)"),
+ "s5-C13e": ("C13", ["C13"], "a default-response header carrying both a pattern and an enum"),
+ "s5-C14e": ("C14", ["C14"], "an anonymous requirement {} in an operation's effective security"),
+ "s5-C15e": ("C15", ["C15"], "a parameter $ref to a whole document (no fragment)"),
+ "s5-C16e": ("C16", ["C16"], "pure data race: operation-id index built lazily by the first OperationForName on a fresh analyzer"),
+ "s5-C17e": ("C17", ["C17"], "a tag name absent from the primary occurring in two mixins (or twice in one)"),
+ "s5-C20e": ("C20", ["C20"], "additionalProperties: false (closed empty object no more a known type)"),
 }
 only = set(sys.argv[1:])
 res_path = os.path.join(HERE, "seeded", "results.json")
